@@ -154,7 +154,7 @@ class Ctx:
         self.hash_to_idx = {}  # library identifier of the class -> index (identifier only, never code)
         self.extra_specs = {}  # churn filler classes: index -> spec
         self.last_status = None
-        self.announced_inputs = set()  # (idx, kind, input hash) of every variables URL a render announced
+        self.seen_inputs = set()  # input hashes of all variables URLs announced so far in this history
 
     def modname(self, m):
         name = "vfc19_c%d_m%s" % (self.no, m)
@@ -416,10 +416,12 @@ def judge(ctx, method, raw, strict, tag):
         return []
     idx, kind, inp = wf
     want = ctx.eff(idx, kind)
-    if inp is not None and (idx, kind, inp) not in ctx.announced_inputs:
-        # well-formed, live class, but an input hash no render of this history ever announced: unknown
+    if inp is not None and inp not in ctx.seen_inputs:
+        # well-formed, live class, but an input hash that no render of this history announced for any class: unknown.
+        # (A hash announced for another class/kind may legitimately be cached here without having been announced: only
+        # the first instance of a class in a page is announced, and subclasses inherit get_js_data/get_css_data.)
         if st != 404:
-            return [("%s GET %r: input hash %r was never announced for class %s %s -> %d %r, want 404" % (tag, raw, inp, idx, kind, st, body_of(resp)[:80]), "unknown-input-not-404")]
+            return [("%s GET %r: input hash %r was never announced in this history -> %d %r, want 404" % (tag, raw, inp, st, body_of(resp)[:80]), "unknown-input-not-404")]
         return []
     if st == 404:
         if strict:
@@ -472,7 +474,7 @@ def battery(ctx, url, valid_inputs):
     # kinds
     for k in ("xyz", "", K.upper(), K + "x", K[:-1], K + "~", "map", K + ":zzzzzz", K + "." + K, other):
         g("kind", PREFIX + H + mid + "." + k)
-    for inp in sorted(valid_inputs) or ["abcdef"]:
+    for inp in sorted(valid_inputs) or ["abcxyz"]:
         g("kind-colon", PREFIX + H + "." + K + ":" + inp)
         g("kind-colon", PREFIX + H + "." + other + ":" + inp)
         g("kind-colon", PREFIX + H + ":" + K + ":" + inp)
@@ -487,7 +489,7 @@ def battery(ctx, url, valid_inputs):
         g("hash", PREFIX + on + "_" + digest + mid + "." + K)
     # input hashes
     g("input", PREFIX + H + ".zzzzzz." + K)
-    g("input", PREFIX + H + ".000000." + K)
+    g("input", PREFIX + H + ".00000g." + K)
     g("input", PREFIX + H + ".." + K)
     if I:
         g("input", PREFIX + H + "." + K)  # variables URL with the input hash dropped == the class's own URL
@@ -608,7 +610,7 @@ def check_render(ctx, html, step, st, fails, probe=None):
         wf = classify(ctx, u)
         if wf and wf[2]:
             valid_inputs.add(wf[2])
-            ctx.announced_inputs.add((wf[0], kind, wf[2]))
+            ctx.seen_inputs.add(wf[2])
 
     def order(e):  # independent of the concrete hash values (they differ between run and replay)
         wf = classify(ctx, e[0])
@@ -730,8 +732,8 @@ def run_hist(case):
                     H = mutate_hash(ctx.define(i)._class_hash, op["hm"])
                     inp = op["inp"]
                     if inp in ("valid_js", "valid_css"):
-                        inp = known_inputs.get(i, {}).get(inp[6:], "aaaaaa")
-                    kind = op["kind"].replace("VALID", known_inputs.get(i, {}).get("js", "bbbbbb"))
+                        inp = known_inputs.get(i, {}).get(inp[6:], "qqqqqq")
+                    kind = op["kind"].replace("VALID", known_inputs.get(i, {}).get("js", "rrrrrr"))
                     raw = op["pre"] + H + ((op["s1"] + inp) if inp is not None else "") + op["s2"] + kind + op["suf"]
                     st.reqs += 1
                     fails.extend(judge(ctx, op["method"], raw, False, "step%d/req" % step))
@@ -819,7 +821,7 @@ def _op_strategy(n, max_steps):
             "method": st.sampled_from(["GET", "GET", "GET", "GET"] + NON_GET),
             "i": idx,
             "hm": st.sampled_from(["id", "id", "id", "id", "trunc", "ext", "flip", "name", "swapcase", "lower", "empty", "digest"]),
-            "inp": st.sampled_from([None, None, None, "zzzzzz", "000000", "", "js", "valid_js", "valid_css"]),
+            "inp": st.sampled_from([None, None, None, "zzzzzz", "00000g", "", "js", "valid_js", "valid_css"]),
             "kind": st.sampled_from(["js", "js", "css", "css", "xyz", "", "JS", "Css", "jss", "j", "js:zzzzzz", "js:VALID", "css:VALID", "js.css", "map"]),
             "s1": st.sampled_from([".", ".", ".", "..", "/", ":", "%2E", "", "-"]),
             "s2": st.sampled_from([".", ".", ".", "..", "/", ":", "%2e", "", "-"]),
